@@ -441,7 +441,7 @@ pub fn run_check(spec: CheckSpec, tier: Tier) -> i32 {
   for f in founds.into_iter().take(1) {
     n_viol += 1;
     let fam = &*spec.families[f.fam_idx].fam;
-    let path = minimise_and_write(spec.property, fam, f, &vdir);
+    let path = minimise_and_write(spec.property, fam, f, &vdir, &known);
     println!("VIOLATION property={} replay={}", spec.property, path);
     replay_paths.push(path);
     exit = 1;
@@ -548,11 +548,11 @@ pub fn run_check(spec: CheckSpec, tier: Tier) -> i32 {
 // ------------------------------------------------------------------------------------------------
 // minimisation and replay files
 
-fn same_violation(out: &RunOut, class: &str, blame: &str) -> Option<Violation> {
+fn same_violation(out: &RunOut, class: &str, blame: &str, keep: &dyn Fn(&Violation) -> bool) -> Option<Violation> {
   if out.invalid {
     return None;
   }
-  out.violations.iter().find(|v| v.class == class && v.blame == blame).cloned()
+  out.violations.iter().find(|v| v.class == class && v.blame == blame && keep(v)).cloned()
 }
 
 /// generic structural shrink candidates of a JSON workload: drop array elements, shrink ints
@@ -622,7 +622,7 @@ fn replace_at(root: &Json, path: &[PathEl], new: Json) -> Json {
   }
 }
 
-fn minimise_and_write(prop: &str, fam: &dyn Family, f: Found, vdir: &str) -> String {
+fn minimise_and_write(prop: &str, fam: &dyn Family, f: Found, vdir: &str, known: &[Known]) -> String {
   let t0 = Instant::now();
   let budget_s = env_u64("VERIF_MINIMISE_S", 40);
   let (class, blame) = (f.v.class.clone(), f.v.blame.clone());
@@ -638,7 +638,8 @@ fn minimise_and_write(prop: &str, fam: &dyn Family, f: Found, vdir: &str) -> Str
       cfg.replay = Some(d.to_vec());
     }
     let out = fam.exec(w, cfg);
-    same_violation(&out, &class, &blame).map(|v| (v, out.res.decisions))
+    // a candidate must not drift into a violation that a known finding explains
+    same_violation(&out, &class, &blame, &|v| match_known(known, prop, fam, w, v).is_none()).map(|v| (v, out.res.decisions))
   };
   // 0. confirm the original reproduces from its decision list
   let reproduces = try_run(&w, Some(&decisions), f.seed).is_some();
@@ -722,7 +723,7 @@ fn minimise_and_write(prop: &str, fam: &dyn Family, f: Found, vdir: &str) -> Str
   cfg.replay = Some(decisions.clone());
   cfg.trace = true;
   let out = fam.exec(&w, cfg);
-  let confirmed = same_violation(&out, &class, &blame).is_some();
+  let confirmed = same_violation(&out, &class, &blame, &|_| true).is_some();
   let trace: Vec<String> = out.res.trace.iter().rev().take(300).rev().cloned().collect();
   let j = Json::obj(vec![
     ("property", Json::str(prop)),
@@ -796,7 +797,7 @@ pub fn replay_file(path: &str, fams: Vec<Box<dyn Family>>) -> i32 {
   for v in &out.violations {
     println!("violation: class={} blame={} detail={}", v.class, v.blame, v.detail);
   }
-  if same_violation(&out, &class, &blame).is_some() {
+  if same_violation(&out, &class, &blame, &|_| true).is_some() {
     println!("VIOLATION property={} replay={}", j.s("property"), path);
     1
   } else if out.violations.is_empty() {
